@@ -290,16 +290,18 @@ theorem forceXtrigs_all (x : Proxy) : (x.forceXtrigs ["all"]).retryWait = false 
   cases x.xExec <;> cases x.xSub <;> rfl
 
 theorem reset_xtrigs (x : Proxy) (st : Option Status) (q r h : Option Bool) :
-    (x.reset st q r h).xExec = x.xExec ∧ (x.reset st q r h).xSub = x.xSub ∧ (x.reset st q r h).pre = x.pre := by
+    (x.reset st q r h).xExec = x.xExec ∧ (x.reset st q r h).xSub = x.xSub ∧ (x.reset st q r h).pre = x.pre ∧
+    (x.reset st q r h).sui = x.sui := by
   unfold Proxy.reset
   simp only
-  split <;> exact ⟨rfl, rfl, rfl⟩
+  split <;> exact ⟨rfl, rfl, rfl, rfl⟩
 
 /-- `merge_flows` leaves the prerequisites and the xtriggers of the proxy alone (and it stays pooled) -/
 theorem mergeFlows_xtrigs (g : Graph) (s : State) (x : Proxy) (f : Flows) (hx : s.get? x.pt x.name = some x) :
-    ∃ y, (mergeFlows g s x f).get? x.pt x.name = some y ∧ y.pre = x.pre ∧ y.xExec = x.xExec ∧ y.xSub = x.xSub := by
+    ∃ y, (mergeFlows g s x f).get? x.pt x.name = some y ∧ y.pre = x.pre ∧ y.xExec = x.xExec ∧ y.xSub = x.xSub ∧
+      y.sui = x.sui := by
   cases h : (f.isEmpty || f == x.flows) with
-  | true => rw [mergeFlows_noop g s x f h]; exact ⟨x, hx, rfl, rfl, rfl⟩
+  | true => rw [mergeFlows_noop g s x f h]; exact ⟨x, hx, rfl, rfl, rfl, rfl⟩
   | false =>
     unfold mergeFlows
     simp only [h, Bool.false_eq_true, if_false]
@@ -310,18 +312,45 @@ theorem mergeFlows_xtrigs (g : Graph) (s : State) (x : Proxy) (f : Flows) (hx : 
     generalize dbInsert (s.put (x.merged f)) (x.merged f) = s1 at h1
     have hsome1 : (s1.get? x.pt x.name).isSome = true := by rw [h1]; rfl
     split
-    · refine ⟨queueTask ((x.merged f).reset (status := some .waiting)), ?_, ?_, ?_, ?_⟩
+    · refine ⟨queueTask ((x.merged f).reset (status := some .waiting)), ?_, ?_, ?_, ?_, ?_⟩
       · have := get?_put_self s1 (queueTask ((x.merged f).reset (status := some .waiting))) (by simpa using hsome1)
         simpa using this
-      · unfold queueTask; rw [(reset_xtrigs _ _ _ _ _).2.2, (reset_xtrigs _ _ _ _ _).2.2]; rfl
+      · unfold queueTask; rw [(reset_xtrigs _ _ _ _ _).2.2.1, (reset_xtrigs _ _ _ _ _).2.2.1]; rfl
       · unfold queueTask; rw [(reset_xtrigs _ _ _ _ _).1, (reset_xtrigs _ _ _ _ _).1]; rfl
       · unfold queueTask; rw [(reset_xtrigs _ _ _ _ _).2.1, (reset_xtrigs _ _ _ _ _).2.1]; rfl
+      · unfold queueTask; rw [(reset_xtrigs _ _ _ _ _).2.2.2, (reset_xtrigs _ _ _ _ _).2.2.2]; rfl
     · split
-      · refine ⟨(x.merged f).noWait, ?_, rfl, rfl, rfl⟩
+      · refine ⟨(x.merged f).noWait, ?_, rfl, rfl, rfl, rfl⟩
         apply (spawnOnAllOutputs_ok g (s1.put (x.merged f).noWait) (x.merged f).noWait).1
         have := get?_put_self s1 (x.merged f).noWait (by simpa using hsome1)
         simpa using this
-      · exact ⟨x.merged f, h1, rfl, rfl, rfl⟩
+      · exact ⟨x.merged f, h1, rfl, rfl, rfl, rfl⟩
+
+/-- **`cylc set --pre` leaves the suicide prerequisites alone** (any prerequisites, `all` included, any xtriggers):
+afterwards the task is in the pool with the suicide prerequisites it had -/
+theorem setPrePooled_sui (g : Graph) (s : State) (x : Proxy) (flows : Flows) (valid : List Atom) (setAll : Bool)
+    (vx : List String) (hx : s.get? x.pt x.name = some x) :
+    ∃ y, (setPrePooled g s x flows valid setAll vx).get? x.pt x.name = some y ∧ y.sui = x.sui := by
+  unfold setPrePooled
+  split
+  · exact ⟨x, hx, rfl⟩
+  · obtain ⟨y1, hy1, _, _, _, hsui⟩ := mergeFlows_xtrigs g s x flows hx
+    simp only
+    rw [hy1]
+    simp only
+    have hk := get?_key hy1
+    have hf := forceXtrigs_fields (y1.forceSatisfy valid setAll) vx
+    refine ⟨(y1.forceSatisfy valid setAll).forceXtrigs vx, ?_, ?_⟩
+    · have := get?_put_self (mergeFlows g s x flows) ((y1.forceSatisfy valid setAll).forceXtrigs vx)
+        (by
+          rw [hf.1, hf.2.1]
+          show ((mergeFlows g s x flows).get? y1.pt y1.name).isSome = true
+          rw [hk.1, hk.2, hy1]; rfl)
+      have e1 : ((y1.forceSatisfy valid setAll).forceXtrigs vx).pt = x.pt := hf.1.trans hk.1
+      have e2 : ((y1.forceSatisfy valid setAll).forceXtrigs vx).name = x.name := hf.2.1.trans hk.2
+      rw [e1, e2] at this
+      exact this
+    · rw [hf.2.2.2.2.2]; exact hsui
 
 /-- **`cylc set --pre=xtrigger/...` on a pooled task**: afterwards the task is in the pool carrying exactly the
 xtriggers it carried; one of them is satisfied iff it was satisfied before, or it was named (`vx`: the requested
@@ -333,7 +362,7 @@ theorem setPrePooled_xtrigs (g : Graph) (s : State) (x : Proxy) (flows : Flows) 
       y.xSub = x.xSub.map (fun v => v || vx == ["all"] || vx.contains (retryLabel true x.pt x.name)) := by
   unfold setPrePooled
   simp only [hsome, Bool.not_true, Bool.false_eq_true, if_false]
-  obtain ⟨y1, hy1, _, hxe, hxs⟩ := mergeFlows_xtrigs g s x flows hx
+  obtain ⟨y1, hy1, _, hxe, hxs, _⟩ := mergeFlows_xtrigs g s x flows hx
   rw [hy1]
   simp only
   have hk := get?_key hy1
